@@ -216,19 +216,21 @@ PENDING = "designed (DESIGN.md section 4); checker not built yet in this tree"
 
 # additions made after the seeded rounds (appended to the technique text)
 EXTRA = {
+    "C22": "; every yielding loop yields on every iteration (no early exit)",
+    "C14": "; argument-binding chain of minimum_qindex / minimum_slice_size_scaler from make_sequence to the search; hidden-state and bug-pattern rules",
     "C01": "; control-dependence signature of every structure check against an applicability table, and the set of state keys/calls each check's own condition reads against a reviewed table; bug-pattern rules",
     "C02": "; set-valued interprocedural provenance analysis of every table/enum lookup key (locals, parameters, map(), state keys by store-pairing, exception attributes through direct and dynamic raises) against the data tables' key sets; freshness of per-picture allocators",
-    "C03": "; scratch State(...) key/source agreement; bug-pattern rules (swapped same-named arguments, stale lower-bound guard, presence by truthiness)",
-    "C04": "; C11 re-evaluated; ceil-division bound of the lossless slice-size scaler against the length field width; row-distinct copy handed to the in-place encoder; bug-pattern rules",
-    "C05": "; bug-pattern rules over the generators' slice-level arithmetic",
+    "C03": "; scratch State(...) key/source agreement; bug-pattern rules (swapped same-named arguments, stale lower-bound guard, presence by truthiness); every rule of C07 and C15 re-evaluated; shared quantisation-matrix key rule",
+    "C04": "; C11 re-evaluated; ceil-division bound of the lossless slice-size scaler against the length field width; row-distinct copy handed to the in-place encoder; bug-pattern rules; hidden-state analysis of the encoder and transform modules",
+    "C05": "; bug-pattern rules over the generators' slice-level arithmetic; shared quantisation-matrix key rule; aliasing lint (one fresh mutable object stored by a loop into many containers); dominating-guard rule for differences stored into length fields",
     "C06": "; hidden-state analysis and bug-pattern rules over the description program, serdes framework and bit I/O",
-    "C07": "; per-sequence definite assignment of every local rebound in the loop over sequences; hidden-state and bug-pattern rules",
-    "C08": "; hidden-state analysis and bug-pattern rules",
-    "C09": "; dyadic-pyramid shape of the unpinned subband_width/height formulas as linear forms of the shift exponents; exact-integer-arithmetic scan of the decoder's reach",
+    "C07": "; per-sequence definite assignment of every local rebound in the loop over sequences; hidden-state and bug-pattern rules; closed set of defaults for every field read (documented-defaults rule); currency of the flag that licenses deletions",
+    "C08": "; hidden-state analysis and bug-pattern rules; shared quantisation-matrix key rule over all uses of the table; per-picture state snapshot rule",
+    "C09": "; dyadic-pyramid shape of the unpinned subband_width/height formulas as linear forms of the shift exponents; exact-integer-arithmetic scan of the decoder's reach; read-set and exit count of the unpinned dimension functions; shape of the padding-removal helpers",
     "C10": "; who-may-ask-the-stream-position rule; aliasing (FRESH facts) of per-sequence state; bug-pattern rules",
     "C11": "; unconditional padding; helper-inlined filter index comparison; hidden-state and bug-pattern rules",
-    "C15": "; per-candidate level filtering (shared with C16.c); bug-pattern rules",
-    "C16": "; hidden-state analysis of the encoder's level decisions; bug-pattern rules",
+    "C15": "; per-candidate level filtering (shared with C16.c); bug-pattern rules; pattern-matched guards of the hand-written colour-specification generator against the ColorSpecificiation field list; agreement of each validator assert_in_enum enumeration with the enumeration the bitstream description declares for the field read",
+    "C16": "; hidden-state analysis of the encoder's level decisions; bug-pattern rules; guard classification of every known-value store (profile tests only)",
     "C17": "; freshness of the union result; bug-pattern rules",
     "C18": "; ownership of Matcher state and freshness of query results; unconditional symbol and wildcard steps; (thorough) exhaustive comparison of the composed gadgets with the reference on all 45 000 pattern trees up to 8 nodes",
     "C19": "; closed list of pruning conditions; fresh matcher per pattern in the root node; hidden-state and bug-pattern rules",
